@@ -331,7 +331,7 @@ pub fn main(args: &Args) -> Report {
         rep.out = out;
         return rep;
     }
-    let n = if args.thorough() { 320 } else { 24 };
+    let n = if args.thorough() { 1200 } else { 24 };
     let deadline = Instant::now() + Duration::from_secs(args.budget_s(150, 1500));
     let seed = args.seed;
     let (out, _) = par_cases(n, threads(), Some(deadline), |k| {
